@@ -19,14 +19,16 @@ inductive Sx where
 deriving Repr, Inhabited, BEq
 
 def tokenize (s : String) : List String :=
+  -- `flush` is a function so that it is evaluated only where a token ends (linear time)
+  let flush (cur : List Char) (acc : List String) : List String :=
+    if cur.isEmpty then acc else String.ofList cur.reverse :: acc
   let rec go (cs : List Char) (cur : List Char) (acc : List String) : List String :=
-    let flush := if cur.isEmpty then acc else String.ofList cur.reverse :: acc
     match cs with
-    | [] => flush.reverse
+    | [] => (flush cur acc).reverse
     | c :: r =>
-      if c == ' ' then go r [] flush
-      else if c == '(' then go r [] ("(" :: flush)
-      else if c == ')' then go r [] (")" :: flush)
+      if c == ' ' then go r [] (flush cur acc)
+      else if c == '(' then go r [] ("(" :: flush cur acc)
+      else if c == ')' then go r [] (")" :: flush cur acc)
       else go r (c :: cur) acc
   go s.toList [] []
 
